@@ -1,85 +1,104 @@
 ---------------------------- MODULE TlsPump ----------------------------
-(* TLSServerProtocol + TLSTransportWrapper (server/tls_protocol.py): the hand-written TLS pump
-   of the PyOpenSSL backend.  The OpenSSL engine is abstracted to what the pump can observe:
-   client ciphertext is a sequence of items (handshake flights, application records, close_notify);
-   an item takes effect when its last byte has been fed; plaintext leaves the engine in recv()
-   chunks of at most RecvMax bytes; send() encrypts at most RecordMax bytes per call.          *)
+(* TLSServerProtocol + TLSTransportWrapper (server/tls_protocol.py): the hand-written TLS pump of the PyOpenSSL
+   backend.  The OpenSSL engine is abstracted to what the pump can observe: the client's ciphertext is a sequence
+   of items (handshake flights, application records, close_notify, junk); an item takes effect when its last byte
+   has been fed.  One action per asyncio callback of the outer protocol:
+
+     Cipher(upto, leaveHalf)   data_received: one TCP read completes items fed+1..upto (and may leave item upto+1
+                               partly fed).  Everything the pump does in that callback is part of the step: the
+                               handshake, creating the inner protocol, the recv(8192) loop that hands ALL decrypted
+                               plaintext to the inner protocol (also after the inner protocol has answered and
+                               closed), the inner protocol's answer (write x n, close), flushing, TCP close.
+     HsTimerFire               the handshake timer
+     TcpLost                   connection_lost from the TCP transport
+
+   C06 (complete, unaltered responses), C07 (plaintext handed over completely and in order whatever the TCP
+   segmentation, incl. application data coalesced with the end of the handshake), C15 (handshake timeout),
+   C20 (nothing reaches the inner protocol without a completed handshake).                                   *)
 EXTENDS Naturals, Sequences, FiniteSets, TLC
 CONSTANTS Client,          \* set of client scripts: Seq of items [k: "hs"|"app"|"close"|"junk", plen: Nat]
-          Replies,         \* set of reply scripts of the inner protocol: [after: Nat, writes: Seq(Nat)]
-                           \*   "after having received `after` plaintext bytes the inner protocol writes these buffers and closes"
-          RecordMax, RecvMax,         \* 16384, 8192
-          DevSingleSendCall,          \* current code: one send() per write(), return value ignored
-          DevNoHsTimer                \* current code: no timer until the handshake has completed
-VARIABLES cfg, fed, half, hs, hsTimer, innerUp, queue, plainIn, replied, submitted, encrypted,
-          tcp, clientGot, closeNotify
-vars == <<cfg, fed, half, hs, hsTimer, innerUp, queue, plainIn, replied, submitted, encrypted, tcp, clientGot, closeNotify>>
-\* fed: number of client items completely fed; half: some (not all) bytes of item fed+1 are in the BIO
-\* queue: plaintext chunk sizes produced by the current data_received call, still to be handed to the inner protocol
+          Replies,         \* inner protocol behaviours: [after: Nat, writes: Seq(Nat)]
+                           \*   "after `after` plaintext bytes the inner protocol writes these buffers and closes"
+          RecordMax,       \* 16384: send() encrypts at most this much per call
+          DevSingleSendCall,          \* deviation: one send() per write(), return value ignored
+          DevNoHsTimer,               \* deviation: no timer until the handshake has completed
+          DevReadOnceAfterHandshake   \* deviation: after the handshake only one recv(8192) is attempted
+VARIABLES cfg, fed, half, hs, hsTimer, innerUp, plainIn, replied, submitted, tcp, clientGot, closeNotify
+vars == <<cfg, fed, half, hs, hsTimer, innerUp, plainIn, replied, submitted, tcp, clientGot, closeNotify>>
 Items == cfg.c
 NeedHs == 2            \* client flights needed (ClientHello, Finished)
-RECURSIVE Chunks(_)
-Chunks(n) == IF n = 0 THEN <<>> ELSE IF n <= RecvMax THEN <<n>> ELSE <<RecvMax>> \o Chunks(n - RecvMax)
+RecvMax == 8192
 Min(a, b) == IF a < b THEN a ELSE b
 RECURSIVE SumSeq(_)
 SumSeq(s) == IF s = <<>> THEN 0 ELSE Head(s) + SumSeq(Tail(s))
+AppBytes(lo, hi) == SumSeq([i \in 1..(hi - lo + 1) |-> IF Items[lo + i - 1].k = "app" THEN Items[lo + i - 1].plen ELSE 0])
 
 Init == /\ cfg \in [c : Client, r : Replies]
         /\ fed = 0 /\ half = FALSE /\ hs = "pending" /\ hsTimer = (IF DevNoHsTimer THEN "none" ELSE "armed")
-        /\ innerUp = FALSE /\ queue = <<>> /\ plainIn = 0 /\ replied = FALSE /\ submitted = 0 /\ encrypted = 0
+        /\ innerUp = FALSE /\ plainIn = 0 /\ replied = FALSE /\ submitted = 0
         /\ tcp = "open" /\ clientGot = 0 /\ closeNotify = FALSE
 
-\* one TCP read: completes items fed+1..upto (and possibly leaves item upto+1 half-fed)
-\* the client cannot send its second flight before it has seen the server's (interactive handshake)
 Cipher(upto, leaveHalf) ==
-  /\ tcp = "open" /\ queue = <<>>
+  /\ tcp = "open"
   /\ upto \in fed..Len(Items) /\ (upto > fed \/ (leaveHalf /\ ~half))
-  /\ (leaveHalf => upto < Len(Items))
+  /\ (leaveHalf => upto < Len(Items) /\ Items[upto + 1].k # "junk")    \* the first bytes of non-TLS input already fail
+  \* the handshake is interactive: the client's second flight answers the server's, so it cannot arrive in the same read as the first
+  /\ ~(fed = 0 /\ upto >= 2 /\ Len(Items) >= 2 /\ Items[1].k = "hs" /\ Items[2].k = "hs")
   /\ fed' = upto /\ half' = leaveHalf
   /\ LET new == SubSeq(Items, fed + 1, upto)
          junk == \E i \in 1..Len(new) : new[i].k = "junk"
-         nHs  == Cardinality({i \in 1..upto : Items[i].k = "hs"})
-         done == hs = "done" \/ (hs = "pending" /\ ~junk /\ nHs >= NeedHs)
-         apps == [i \in 1..Len(new) |-> IF new[i].k = "app" THEN new[i].plen ELSE 0]
-         closes == \E i \in 1..Len(new) : new[i].k = "close" IN
-     /\ IF junk /\ hs = "pending" THEN        \* SSL.Error in do_handshake: _close_with_error
-             /\ hs' = "failed" /\ tcp' = "closing" /\ UNCHANGED <<innerUp, queue, hsTimer>>
-        ELSE /\ hs' = IF done THEN "done" ELSE hs
-             /\ innerUp' = (innerUp \/ done)
-             /\ hsTimer' = IF done /\ hsTimer = "armed" THEN "off" ELSE hsTimer
-             /\ queue' = IF done THEN Chunks(SumSeq(apps)) ELSE <<>>      \* recv() loop: chunks of <= RecvMax
-             /\ tcp' = IF done /\ closes /\ SumSeq(apps) = 0 THEN "closing" ELSE tcp       \* ZeroReturnError: _handle_close
-  /\ UNCHANGED <<cfg, plainIn, replied, submitted, encrypted, clientGot, closeNotify>>
-
-\* one inner_protocol.data_received(chunk) inside the pump's recv loop; the inner protocol may answer
-Deliver ==
-  /\ queue # <<>> /\ innerUp
-  /\ plainIn' = plainIn + Head(queue) /\ queue' = Tail(queue)
-  /\ IF ~replied /\ plainIn + Head(queue) >= cfg.r.after THEN
-         \* inner writes its buffers then closes: TLSTransportWrapper.write x n, close()
-         LET total == SumSeq(cfg.r.writes)
-             enc == IF DevSingleSendCall
-                      THEN SumSeq([i \in 1..Len(cfg.r.writes) |-> Min(cfg.r.writes[i], RecordMax)])
-                      ELSE total IN
-         /\ replied' = TRUE /\ submitted' = total /\ encrypted' = enc
-         /\ clientGot' = IF tcp = "open" THEN enc ELSE clientGot        \* _flush_outgoing after every send
-         /\ closeNotify' = (tcp = "open") /\ tcp' = "closing"           \* shutdown(), flush, transport.close()
-     ELSE UNCHANGED <<replied, submitted, encrypted, clientGot, closeNotify, tcp>>
-  /\ UNCHANGED <<cfg, fed, half, hs, hsTimer, innerUp>>
+         \* items of this read that are processed: everything before the first junk item
+         upj  == IF junk THEN fed + (CHOOSE i \in 1..Len(new) : new[i].k = "junk" /\ \A j \in 1..(i - 1) : new[j].k # "junk") - 1
+                 ELSE upto
+         pre  == SubSeq(Items, fed + 1, upj)
+         nHs  == Cardinality({i \in 1..upj : Items[i].k = "hs"})
+         completes == hs = "pending" /\ nHs >= NeedHs
+         done == hs = "done" \/ completes
+         apps == AppBytes(fed + 1, upj)
+         \* plaintext handed to the inner protocol in this callback
+         handed == IF ~done THEN 0
+                   ELSE IF completes /\ DevReadOnceAfterHandshake THEN
+                        Min(RecvMax, IF \E i \in 1..Len(pre) : pre[i].k = "app"
+                                       THEN pre[CHOOSE i \in 1..Len(pre) : pre[i].k = "app" /\ \A j \in 1..(i - 1) : pre[j].k # "app"].plen
+                                       ELSE 0)
+                   ELSE apps
+         closes == \E i \in 1..Len(pre) : pre[i].k = "close"
+         answers == done /\ ~replied /\ plainIn + handed >= cfg.r.after
+         total == SumSeq(cfg.r.writes)
+         enc == IF DevSingleSendCall
+                  THEN SumSeq([i \in 1..Len(cfg.r.writes) |-> Min(cfg.r.writes[i], RecordMax)])
+                  ELSE total IN
+     IF junk /\ ~done THEN        \* SSL.Error in do_handshake: _close_with_error
+          /\ hs' = "failed" /\ tcp' = "closing"
+          /\ UNCHANGED <<innerUp, hsTimer, plainIn, replied, submitted, clientGot, closeNotify>>
+     ELSE /\ hs' = IF done THEN "done" ELSE hs
+          /\ innerUp' = (innerUp \/ done)
+          /\ hsTimer' = IF done /\ hsTimer = "armed" THEN "off" ELSE hsTimer
+          /\ plainIn' = plainIn + handed
+          /\ IF answers
+               THEN /\ replied' = TRUE /\ submitted' = total /\ clientGot' = enc
+                    /\ closeNotify' = TRUE /\ tcp' = "closing"
+               ELSE /\ UNCHANGED <<replied, submitted, clientGot, closeNotify>>
+                    /\ tcp' = IF done /\ (closes \/ junk) THEN "closing" ELSE tcp
+  /\ UNCHANGED cfg
 
 HsTimerFire == /\ hsTimer = "armed" /\ hsTimer' = "fired" /\ tcp' = (IF tcp = "open" THEN "closing" ELSE tcp)
-               /\ UNCHANGED <<cfg, fed, half, hs, innerUp, queue, plainIn, replied, submitted, encrypted, clientGot, closeNotify>>
-TcpLost == /\ tcp = "closing" /\ queue = <<>> /\ tcp' = "closed"
+               /\ UNCHANGED <<cfg, fed, half, hs, innerUp, plainIn, replied, submitted, clientGot, closeNotify>>
+TcpLost == /\ tcp = "closing" /\ tcp' = "closed"
            /\ hsTimer' = (IF hsTimer = "armed" THEN "off" ELSE hsTimer)
-           /\ UNCHANGED <<cfg, fed, half, hs, innerUp, queue, plainIn, replied, submitted, encrypted, clientGot, closeNotify>>
-Next == (\E u \in 0..6, h \in BOOLEAN : Cipher(u, h)) \/ Deliver \/ HsTimerFire \/ TcpLost
-Spec == Init /\ [][Next]_vars /\ WF_vars(Deliver) /\ WF_vars(HsTimerFire) /\ WF_vars(TcpLost)
+           /\ UNCHANGED <<cfg, fed, half, hs, innerUp, plainIn, replied, submitted, clientGot, closeNotify>>
+Next == (\E u \in 0..7, h \in BOOLEAN : Cipher(u, h)) \/ HsTimerFire \/ TcpLost
+Spec == Init /\ [][Next]_vars /\ WF_vars(HsTimerFire) /\ WF_vars(TcpLost)
 
 \* ---- properties ---------------------------------------------------------------
 PrefixAlways == clientGot <= submitted                                              \* C06
 CompleteAtClose == closeNotify => clientGot = submitted                             \* C06
 InnerOnlyAfterHandshake == innerUp => hs = "done"                                   \* C20
 NoPlainBeforeTls == (hs # "done") => plainIn = 0                                    \* C20
-PlainInOrder == plainIn <= SumSeq([i \in 1..fed |-> IF Items[i].k = "app" THEN Items[i].plen ELSE 0])   \* C07
-SilentPeerDropped == <>(hs = "done" \/ tcp # "open")                                \* C15: handshake never hangs
+PlainInOrder == plainIn <= AppBytes(1, fed)                                         \* C07
+\* C07: every byte of every completely received record has been handed to the inner protocol, however the
+\* ciphertext was split into TCP reads (incl. records coalesced with the end of the handshake)
+PlainComplete == (hs = "done" /\ tcp = "open") => plainIn = AppBytes(1, fed)
+HsTimerWhileHandshaking == (hs = "pending" /\ tcp = "open") => hsTimer = "armed"    \* C15
+SilentPeerDropped == <>(hs = "done" \/ tcp # "open")                                \* C15: the handshake never hangs
 =============================================================================
